@@ -1,8 +1,9 @@
 (* The generated three-way comparison (Cmp<Type> in struct/oneof/array/multimap templates,
    go/pkg/types.go *Compare) and deep copy as functions on self-describing values.
-   A value carries what the comparison looks at: for optional struct fields the presence flag AND
-   the stored value (Go compares the stored value even when both sides are absent), for oneofs only
-   the selected alternative, for dictionary structs possibly nil pointers. *)
+   A value carries what the comparison looks at: for optional struct fields the presence flag and
+   the value (the harness hands over CNil for an absent field: since the repair of the generated Cmp
+   the value still stored in an absent field is not compared, i.e. Go computes cmp (data a) (data b)),
+   for oneofs only the selected alternative, for dictionary structs possibly nil pointers. *)
 From Coq Require Import List NArith ZArith Bool Lia.
 From Stef Require Import Bits Codecs.
 Import ListNotations.
